@@ -48,7 +48,7 @@ def args_of(r, fname):
     return c / r.den[P.ONE_M], a.args
 
 
-def rpy(chk, prog):
+def rpy(chk, prog, only=None):
     ang = sym_vec("ang", 3)
     for a in ang:
         P.set_angle_unit(a, Fraction(1, 2))
@@ -61,6 +61,8 @@ def rpy(chk, prog):
          lambda out: out[0]),
     ]
     for label, fr, to, build, pick in routes:
+        if only is not None and label not in only:
+            continue
         chk.touch(prog.func(fr))
         chk.touch(prog.func(to))
 
@@ -96,6 +98,8 @@ def rpy(chk, prog):
                     continue
             chk.ob("RPY", "%s o %s%s" % (to, fr, " [threshold arm]" if arm else ""), "to_angles(from_rpy(r,p,y)) has arguments (sin r cos p, cos r cos p), sin p, (sin y cos p, cos y cos p)", law,
                    module=f.module.rel, function=f.qname, construct="rpy round trip (%s)%s" % (label, " [threshold arm]" if arm else ""), line=f.node.lineno)
+    if only is not None:
+        return
     f1, f2 = prog.func(ORI + "::rpy2q"), prog.func(ORI + "::q2rpy")
     chk.touch(f1)
     chk.touch(f2)
